@@ -119,7 +119,7 @@ pub fn replay_pp_one(idx: usize, v: &Value, rep: &Report, cnt: &mut Counts, seed
     }
     // (3) real widths: pad on the right with a byte outside the alphabet until min_haystack_len is met
     if !panic {
-        #[cfg(target_arch = "x86_64")]
+        #[cfg(verif_x86)]
         {
             use memchr::arch::x86_64::{avx2, sse2};
             for extra in [0usize, 1, 17] {
